@@ -61,7 +61,7 @@ def reference_window(win, psll, L):
 
 # ------------------------------------------------------------------ records
 
-RECIPES = ["noise", "noise", "sine+noise", "trend+noise", "offset+noise", "multisine", "impulses", "const", "zeros", "randwalk", "line+floor", "steepred"]
+RECIPES = ["noise", "noise", "sine+noise", "trend+noise", "offset+noise", "multisine", "impulses", "const", "zeros", "randwalk", "line+floor", "steepred", "neg_copy", "identical"]
 
 
 def gen_data_spec(rw, N, channels, recipes=None):
@@ -118,6 +118,16 @@ def make_record(spec):
             return np.cumsum(np.cumsum(g.normal(size=N)))
         raise ValueError(rec)
 
+    if rec in ("neg_copy", "identical", "scaled_copy"):
+        # second channel is an exact (inverted / scaled) copy of the first: coherence 1, Hxy on the real axis
+        rec_ = rec
+        rec = "noise"
+        x = one(0) + 0.3 * np.sin(0.37 * t)
+        if ch == 1:
+            return np.ascontiguousarray(x * spec["scale"] + spec["offset"], dtype=np.float64)
+        k = {"neg_copy": -2.5, "identical": 1.0, "scaled_copy": 0.125}[rec_]
+        xs = x * spec["scale"] + spec["offset"]
+        return np.ascontiguousarray(np.vstack([xs, k * xs]), dtype=np.float64)
     x = one(0)
     if ch == 1:
         out = x * spec["scale"] + spec["offset"]
